@@ -8,6 +8,7 @@
 import PygModel.Eq
 import PygProofs.Lemmas.EqLemmas
 import PygProofs.Lemmas.EqDictLemmas
+import PygProofs.Lemmas.EqSame
 
 namespace Pyg.Props.C14
 open Pyg Pyg.EqM
@@ -107,6 +108,33 @@ theorem eq_dict_class (c d : Nat) (a b : List (String × EVal)) (h : eq (.dict c
     · rintro ⟨x, hx, rfl⟩; exact ⟨x, (mem_sortK x _).2 hx, rfl⟩
   rw [← hm a, ← hm b, hk]
 
+
+/-- dicts are equal exactly if they are the same mapping up to `eq`: same exact class, same size, and every item of the left is
+found under its key on the right with an `eq` value - for ALL values (NaN, arrays, pandas objects, subclasses inside), whatever
+the insertion orders.  (`eq_dict_class` is the class / size / key-set part; this adds the values.) -/
+theorem eq_dict_iff (c d : Nat) (a b : List (String × EVal))
+    (ha : (a.map (·.1)).Nodup) (hb : (b.map (·.1)).Nodup) :
+    eq (.dict c a) (.dict d b) = true ↔
+      c = d ∧ a.length = b.length ∧ ∀ x ∈ a, ∃ w, EVal.lookup x.1 b = some w ∧ eq x.2 w = true :=
+  eq_dict_iff_aux c d a b ha hb
+
+-- see the non-vacuity section for an instance
+-- example : eq (.dict 1 [("b", nan), ("a", .arr [2] [i 1, nan])]) (.dict 1 [("a", .arr [2] [f 4, nan]), ("b", nan)]) = true := by decide
+
+
+/-- **independent specification**: `eq` decides the relation `Same` (PygProofs/Lemmas/EqSame.lean), which is given by rules that
+never mention `eq`, normalisation or sorting: scalars - NaN with NaN, otherwise python `==`; list / tuple / array / Series /
+DataFrame - same constructor, same shape, same axis labels (NaN label with NaN label), the same thing at every position; dicts -
+same exact class, same size and, as MAPPINGS, under every key of the left the right holds the same thing.  For all values of the
+universe (NaN, arrays, pandas objects, dict subclasses at any depth) whose dicts have distinct keys, as every python dict has.
+This extends `eq_agrees_pyeq` from NaN-free plain values to everything; a model that e.g. compared dict items in insertion
+order, ignored a shape, or let a NaN label differ from itself could not satisfy it. -/
+theorem eq_iff_same (a b : EVal) (ka : a.keysOk = true) (kb : b.keysOk = true) : eq a b = true ↔ Same a b :=
+  eq_iff_same_aux _ a b (Nat.le_refl _) ka kb
+
+/-- axis labels match iff there are equally many and the labels at every position are the same (`==`, or both NaN) -/
+theorem idxEq_iff (i j : List Cell) : idxEq i j = true ↔ LabelsSame i j := idxEq_iff_same i j
+
 /-- on NaN-free plain values `eq` agrees with Python `==` (`pyEqV`): for ALL values built from None,
 bools, ints, floats other than NaN, strings, datetimes, dates and arbitrarily nested lists, tuples
 and plain dicts (`EVal.plain`), every dict having distinct (string) keys as every python dict has
@@ -158,6 +186,13 @@ example : eq (.arr [2] [i 1, nan]) (.arr [2] [f 4, nan]) = true ∧
 example : (EVal.list [i 1]).kind ≠ (EVal.tuple [i 1]).kind := by decide
 example : (EVal.dict 0 [("a", i 1)]).kind ≠ (EVal.dict 1 [("a", i 1)]).kind := by decide
 example : (i 1).kind ≠ (EVal.arr [] [i 1]).kind := by decide
+-- eq_dict_iff on a dict subclass holding NaN and an array, items reordered
+example : eq (.dict 1 [("b", nan), ("a", .arr [2] [i 1, nan])]) (.dict 1 [("a", .arr [2] [f 4, nan]), ("b", nan)]) = true := by decide
+-- `Same` is inhabited on non-trivial values (through eq_iff_same) and refuted on others
+example : Same (.dict 1 [("b", nan), ("a", .series [.nan, .int 1] [i 1, nan])]) (.dict 1 [("a", .series [.nan, .flt 4] [f 4, nan]), ("b", nan)]) :=
+  (eq_iff_same _ _ (by decide) (by decide)).1 (by decide)
+example : ¬ Same (.arr [2, 1] [i 1, i 2]) (.arr [1, 2] [i 1, i 2]) :=
+  fun h => absurd ((eq_iff_same _ _ (by decide) (by decide)).2 h) (by decide)
 -- shapes matter although the cells agree
 example : eq (.arr [2, 1] [i 1, i 2]) (.arr [1, 2] [i 1, i 2]) = false := by decide
 example : eq (.series [.int 0, .int 1] [i 1, i 2]) (.series [.int 1, .int 2] [i 1, i 2]) = false := by decide
